@@ -162,6 +162,7 @@ fn check_sequence(idxs: &[usize], ctx: usize, sep: &str, obs: &mut Obs) {
     let r = guard(|| parse_list(&src, brace));
     let kind_of = |k: usize| STATEMENTS[idxs[k]].0;
     let pred_of = |k: usize| if k == 0 { "start" } else { STATEMENTS[idxs[k - 1]].0 };
+    let next_of = |k: usize| if k + 1 >= idxs.len() { "end" } else { STATEMENTS[idxs[k + 1]].0 };
     match r {
         Err(p) => {
             obs.inconclusive(format!("parse panicked: {}", p.site()));
@@ -188,7 +189,7 @@ fn check_sequence(idxs: &[usize], ctx: usize, sep: &str, obs: &mut Obs) {
                     _ => "count",
                 };
                 obs.violate(
-                    format!("{}/{}/{cname}/{what}", kind_of(k), pred_of(k)),
+                    format!("{}/{}/{cname}/{what}/next:{}", kind_of(k), pred_of(k), next_of(k)),
                     format!("{src:?}: statement {i}: in context {:?}, alone {:?}", list.get(i), expected.get(i)),
                 );
             } else if nerr > 0 {
@@ -205,7 +206,7 @@ fn check_sequence(idxs: &[usize], ctx: usize, sep: &str, obs: &mut Obs) {
                     }
                 }
                 obs.violate(
-                    format!("{}/{}/{cname}/diagnostic", kind_of(culprit), pred_of(culprit)),
+                    format!("{}/{}/{cname}/diagnostic/next:{}", kind_of(culprit), pred_of(culprit), next_of(culprit)),
                     format!("{src:?}: {nerr} diagnostics although every statement parses cleanly alone"),
                 );
             }
